@@ -1095,6 +1095,8 @@ class PEmitter:
             if name == "into" and not args and t == "i16" and resolve(want) in (None, "f32z"):
                 # i16 -> f32 is exact (|v| < 2^24): the float coefficient is the integer
                 return k(a, "f32z", env)
+            if name in ("max", "min") and len(args) == 1 and is_int(t):
+                return self.expr(args[0], env, lambda b, tb, env: k("(Z.%s %s %s)" % (name, a, b), t, env), t)
             if name == "abs" and not args and is_int(t):
                 v = self.fresh("t")
                 return "let* %s := abs_c %s %s in\n  %s" % (v, COQTY[t], a, k(v, t, env))
